@@ -126,11 +126,14 @@ class Time(object):
         Time
             The resulting time as a Time instance.
         """
-        if not isinf(other):
+        if not isinf(other) and not isinf(self._quotient):
             add_quotient, new_remainder = divmod(self._remainder + other, 1.0)
             return Time(self._quotient + add_quotient, new_remainder)
-        else:
+        elif isinf(other):
             return Time(other, other)
+        else:
+            # An infinite time stays infinite when a finite time is added (divmod of an infinite float yields nan).
+            return Time(self._quotient, self._remainder)
 
     def __sub__(self, other: 'Time') -> float:
         """
